@@ -19,7 +19,9 @@ CHECKS["C03"] = dict(
     technique="TLA+ system model (SmartCalc.tla, Env.tla) model-checked by TLC; TLC-enumerated programs replayed into the code; random session traces validated by TLC (Trace.tla)",
     text="TLC model-checks LatestBinding / FailKeepsEnv / LoopIsRunLines on the system model, enumerates every straight-line program of <= 4 lines over a "
          "13-line alphabet (every value kind, copies, self-reference, longest-match names, failing lines) with expected slots, and the harness replays "
-         "each as one text and line by line through a re-used session; random programs of 20..50 lines are executed and their traces validated by TLC.",
+         "each as one text and line by line through a re-used session; random programs of 20..50 lines are executed and their traces validated by TLC. "
+         "Phrase lines that TLC generated for seven other properties (conversions, shifts, differences, percentage phrases; 25 form variants) are evaluated with their leading or "
+         "trailing operand written as a name bound on the line before (Meaning form 'via') and must mean what the phrase with the operand itself means.",
     note="trusted: renderer, projection, TLC; program length and alphabet are bounded; names are only compared after a successful binding",
     ref="7 C03")
 CHECKS["C04"] = dict(
@@ -59,9 +61,9 @@ CHECKS["C09"] = dict(
 CHECKS["C14"] = dict(
     technique="TLA+ spec (UnixTime.tla over Calendar.tla) model-checked by TLC; TLC-enumerated timestamp / date lines replayed into the code; random traces validated by TLC (Trace.tla)",
     text="TLC model-checks on UnixTime.tla that timestamp -> date-time -> timestamp is the identity for 8 offsets and that the printed local date-time read back gives the instant, on 2,325 "
-         "boundary and grid timestamps of years 1..9999; enumerates boundary timestamps and a grid x default and explicit zones under 2 default zones as 'N to date' / 'N to Z' and as the "
-         "one-line round trip, dates and times 'as unix', each with the expected instant, zone, printed fields and printed digits; random timestamps and dates are executed and validated by TLC.",
-    note="trusted: renderer, timestamp split and date-time text projection, TLC; '<time> as unix' only under a UTC default zone; 'date at N' is not used",
+         "boundary and grid timestamps of years 1..9999; enumerates boundary timestamps and a grid x default and explicit zones under 3 default zones (UTC, one east, one west with minutes) as 'N to date' / 'N to Z' and as the "
+         "one-line round trip, dates and times 'as unix', date-times written '<date> at <time>' (their value, timestamp, shift by a duration, display in a zone), each with the expected instant, zone, printed fields and printed digits; random timestamps and dates are executed and validated by TLC.",
+    note="trusted: renderer, timestamp split and date-time text projection, TLC; '<time> as unix' (no date) only under a UTC default zone; 'date at N' (bare hour) is not used",
     ref="7 C14")
 
 CHECKS["C13"] = dict(
@@ -75,7 +77,7 @@ CHECKS["C13"] = dict(
 CHECKS["C05"] = dict(
     technique="TLA+ spec (Percent.tla on exact rationals) model-checked by TLC; TLC-enumerated percentage phrases replayed into the code; random traces validated by TLC (Trace.tla)",
     text="TLC model-checks the mutual consistency of the seven formulas (on = X + of, off = X - of, 'what %' and 'of what' invert 'of', zero divisors) on 36 value / percentage pairs; "
-         "enumerates every phrase over 6 values x 6 percentages (negative, zero, fractional, > 100), plain and as money in 3 (thorough: all rated) currencies, with exact rational "
+         "enumerates every phrase over 6 values x 6 percentages (negative, zero, fractional, > 100), plain and as money in 3 (thorough: all rated) currencies plus 2 (thorough 14) currencies that have no rate, with exact rational "
          "expectations; replayed in both operand orders, both spellings p% / %p, several money spellings and two separator configurations; random decimals are executed and validated by TLC.",
     note="trusted: renderer, f64 -> rational projection (1e-9), TLC; value sets are bounded",
     ref="7 C05")
@@ -83,7 +85,8 @@ CHECKS["C06"] = dict(
     technique="TLA+ spec (Money.tla; rate table as state of SmartCalc.tla) model-checked by TLC; TLC-enumerated lines and update_currency / evaluate histories replayed into the code; random histories validated by TLC (Trace.tla)",
     text="TLC model-checks conversion identity / transitivity / inverse, arithmetic, alias resolution and RateFrame on exact rates, and EvalFramesCalc plus the return value of update_currency "
          "on every enumerated history; enumerates literals in every rated currency and spelling, conversions over all 1,024 ordered pairs of rated currencies under the configured rates "
-         "(expectation = term over config.json's rates) and under exact rates set through update_currency, money arithmetic, and all histories of 3 (thorough 4) calls over "
+         "(expectation = term over config.json's rates) and under exact rates set through update_currency, money arithmetic, the rate frame over the whole table (update_currency of each of the "
+         "161 configured currencies followed by a conversion of every rated currency), and all histories of 3 (thorough 4) calls over "
          "update_currency(code | alias | unknown) / evaluate; random histories of 12..40 calls with exact rates are executed and validated by TLC.",
     note="trusted: renderer, projection, double-precision evaluation of terms over configured rates (1e-9), TLC; amounts, history depth and the history alphabet are bounded",
     ref="7 C06")
@@ -145,7 +148,7 @@ CHECKS["C16"] = dict(
 CHECKS["C19"] = dict(
     technique="TLA+ spec in which the language is a rendering / printing attribute (invariance by construction; printed words checked by PrintMatches through table-driven projections); TLC-enumerated date, duration and arithmetic cases replayed in every language; random cases validated by TLC (Trace.tla)",
     text="The cases TLC enumerates for dates and durations are rendered with every configured month name, duration word and day keyword of every language and must give the value TLC computed, "
-         "printed with that language's own month names and unit words; arithmetic trees are written with each language's operator words; word-free arithmetic, percentage and money cases are "
+         "printed with that language's own month names and unit words; arithmetic trees are written with each language's operator words (in lower case against the value, in title / upper case against what English does with its own words); word-free arithmetic, percentage and money cases are "
          "evaluated under every language tag and must agree in value and in printed output; random cases are executed and validated by TLC with the language in the event.",
     note="trusted: renderer (words from config.json), date_printed / duration_parts projections (language tables), TLC; only concepts a language has words for are rendered in it",
     ref="7 C19")
@@ -153,7 +156,7 @@ CHECKS["C19"] = dict(
 CHECKS["C17"] = dict(
     technique="TLA+ spec (UiSpans.tla) model-checked by TLC; recorded (line length, written lexeme spans, reported highlight tokens) traces of the real library validated by TLC (Trace.tla 'ui' events)",
     text="TLC model-checks that the well-formedness predicate is exactly 'increasing chain of non-empty disjoint spans inside the line' and enumerates every sequence of 1..3 (thorough 5) "
-         "lexeme classes out of 12 (numbers, operators, parentheses, ASCII / 2-byte / 3-byte words, a 4-byte symbol, words whose case mapping changes length, assignment, zone and month names) "
+         "lexeme classes out of 13 (numbers, based literals, operators, parentheses, ASCII / 2-byte / 3-byte words, a 4-byte symbol, words whose case mapping changes length, assignment, zone and month names) "
          "with and without a comment; the driver renders each with concrete strings in en and tr, knows the character span of every number, operator and comment it wrote, and TLC validates "
          "every recorded line: spans inside the line, ordered, disjoint, and each written lexeme reported with its own kind and exactly its characters. Random longer lines likewise.",
     note="trusted: the composer's span bookkeeping (lexemes separated by blanks), Debug names of UiTokenType, TLC; only number / operator / comment lexemes are claimed",
@@ -166,7 +169,8 @@ CHECKS["C01"] = dict(
          "operator characters, unicode shapes, huge counts); the driver joins them into texts of 1..4 lines with LF / CRLF under 4 language tags (one unknown, one empty) and 6 separator / zone "
          "configurations, adds a fuzz set (random UTF-8, dictionary words, regex-shaped fragments, mutated test lines), runs everything in worker processes with panic, crash and hang capture, "
          "and TLC validates each execution: returned, status true, one admissible slot per line, and every line's slot equal to the slot of that line alone. The panic / termination half is "
-         "exploration driven by the model's alphabet - TLA+ cannot see Rust panics - and the evidence says so.",
+         "exploration driven by the model's alphabet - TLA+ cannot see Rust panics - and the evidence says so. Two non-gating layers are reported in the evidence: the rule engine "
+         "(Pipeline.tla, hook-based trace validation) and the kind algebra A op B (Kinds.tla, descriptive).",
     note="trusted: worker-process isolation with panic hook and 30 s watchdog, projection, TLC; lines <= 256 characters; custom rules are outside C01's configuration space",
     ref="7 C01")
 
